@@ -5,8 +5,10 @@
     the two decidable side conditions
     - [closed_loop_clean false P = true]  (general position: every push of the merge appended; Model/PolyAux.v),
     - [closed_loop_wf P = true]  (every stage of the merge attached a NEW hole at a position of the current outline;
-      implied by [closed_loop_hits P = true]: every stage's nearest-pair scan found a pair closer than 3e7 -- and not
-      droppable: [C12_region_far_holes_refuted]),
+      implied by [closed_loop_hits P = true]: every stage's nearest-pair scan found a pair at squared distance below the
+      value it starts from -- Float::MAX since fix f0d596d, so over the reals it holds for every polygon with non-empty loops
+      and coordinates below 2^500 ([C12_region_bounded_coords_wf]); with the former start value 9e14 it did not:
+      [C12_region_far_holes_pinned_refuted]),
     the merged outline [m] satisfies, with every hole taken "oriented like the outer outline"
     ([oriented n h] = the stored list when the stored normals have the same direction, its reverse otherwise):
 
@@ -179,33 +181,51 @@ Theorem C12_region_scan_cases : forall (K : Type) (NK : Num K) (hs : list (Loop 
   exists d j' k' l' h, scan_ext evs j hs processed st = (d, j', k', k', l') /\ j <= j' < j + length evs /\
     nth_error hs k' = Some h /\ l' < llen h /\ existsb (Nat.eqb k') processed = false.
 Proof. exact (fun K NK => @scan_ext_cases K NK). Qed.
-(** if every stage finds a pair closer than the initial constant (squared distance < 9e14) the trace is well formed *)
+(** if every stage finds a pair at squared distance below the value the scan starts from (Float::MAX) the trace is well formed *)
 Theorem C12_region_hits_wf : forall P : Poly R, closed_loop_hits P = true -> closed_loop_wf P = true.
 Proof. exact hits_wf_R. Qed.
-Theorem C12_region_hits_wf_any_instance : forall (K : Type) (NK : Num K), nltb (c9e14 : K) c9e14 = false ->
+Theorem C12_region_hits_wf_any_instance : forall (K : Type) (NK : Num K), nltb (nmaxf : K) nmaxf = false ->
   forall P : Poly K, closed_loop_hits P = true -> closed_loop_wf P = true.
 Proof. exact (fun K NK => @hits_wf K NK). Qed.
-
-(** a geometric sufficient condition: the outline and every hole have a vertex, and any two vertices of the polygon are
-    closer than sqrt(9e14) = 3e7 *)
+(** a sufficient condition: the outline and every hole have a vertex, and any two vertices of the polygon are at squared
+    distance below Float::MAX (= 2^1024 on the real instance) ... *)
 Theorem C12_region_within_reach_wf : forall P : Poly R,
   (verts (pouter P) <> [] /\ (forall h, In h (pinner P) -> verts h <> []) /\
-   forall a b, In a (poly_verts P) -> In b (poly_verts P) -> (psqdist a b < c9e14)%R) ->
+   forall a b, In a (poly_verts P) -> In b (poly_verts P) -> (psqdist a b < IZR (2 ^ 1024))%R) ->
   closed_loop_hits P = true /\ closed_loop_wf P = true.
 Proof. exact within_reach_wf. Qed.
+(** ... in particular: every coordinate of every vertex at most 2^500 in absolute value *)
+Theorem C12_region_bounded_coords_wf : forall P : Poly R,
+  verts (pouter P) <> [] -> (forall h, In h (pinner P) -> verts h <> []) ->
+  (forall v, In v (poly_verts P) -> (Rabs (vx v) <= IZR (2 ^ 500) /\ Rabs (vy v) <= IZR (2 ^ 500) /\ Rabs (vz v) <= IZR (2 ^ 500))%R) ->
+  closed_loop_hits P = true /\ closed_loop_wf P = true.
+Proof. exact bounded_coords_wf. Qed.
 
-(** ** [closed_loop_wf] cannot be dropped (binary64): a hole farther than 3e7 from every vertex of the current outline
-    is never chosen.  Square of side 1e8, hole 0 near the corner (1e8,1e8), hole 1 at the centre: a clean run, both stages
-    merge hole 0, no vertex of hole 1 occurs in the result, and the closed result's area is off by more than 3e11 *)
-Theorem C12_region_far_holes_refuted : exists (P : Poly float) (L : Loop float),
+(** ** the defect repaired by fix f0d596d (binary64): the PINNED merge started its scans from 9e14, so a hole farther than 3e7
+    from every vertex of the current outline was never chosen.  Square of side 1e8, hole 0 near the corner (1e8,1e8), hole 1 at the
+    centre, both wound against the outline (forward walk: the wrapped index cast of the pinned tree is not exercised): a clean run,
+    hole 0 merged twice, no vertex of hole 1 in the result, closed area off by more than 3e11 *)
+Theorem C12_region_far_holes_pinned_refuted : exists (P : Poly float) (L : Loop float),
   far_witness = Ok P /\ pinner P = [far_hole0; far_hole1] /\
-  closed_loop_clean false P = true /\ closed_loop_hits P = false /\ closed_loop_wf P = false /\
-  option_map (map ms_ml) (closed_loop_trace P) = Some [0; 0] /\
-  poly_get_closed_loop P = Ok L /\ llen L = 14 /\
+  map (fun h => vis_same_direction (lnormal (pouter P)) (lnormal h)) (pinner P) = [false; false] /\
+  closed_loop_clean true P = true /\
+  poly_get_closed_loop_gen true P = Ok L /\ llen L = 14 /\
+  forallb (occurs_in (verts L)) (verts far_hole0) = true /\
   forallb (fun v => negb (occurs_in (verts L) v)) (verts far_hole1) = true /\
   snd (loop_close L) = Ok tt /\
   PrimFloat.ltb (larea (fst (loop_close L))) (parea P - 3e11)%float = true.
-Proof. exact far_holes_refuted. Qed.
+Proof. exact far_holes_pinned_refuted. Qed.
+(** regression: the LIVE model on the same polygon -- both side conditions hold, the two stages merge holes 0 and 1, every
+    vertex of both holes occurs, and the closed merged loop reports the polygon's area *)
+Theorem C12_region_far_holes_now_merged : exists (P : Poly float) (L : Loop float),
+  far_witness = Ok P /\
+  closed_loop_clean false P = true /\ closed_loop_hits P = true /\ closed_loop_wf P = true /\
+  option_map (map ms_ml) (closed_loop_trace P) = Some [0; 1] /\
+  poly_get_closed_loop P = Ok L /\ llen L = 14 /\
+  forallb (occurs_in (verts L)) (verts far_hole0) = true /\ forallb (occurs_in (verts L)) (verts far_hole1) = true /\
+  snd (loop_close L) = Ok tt /\
+  PrimFloat.leb (PrimFloat.abs (larea (fst (loop_close L)) - parea P)) (1e-12 * parea P)%float = true.
+Proof. exact far_holes_now_merged. Qed.
 
 (** ** non-vacuity (binary64): the unit square with two triangular holes, one wound like the outline, one against it.
     Both side conditions hold; the second hole is attached at position 4 of the CURRENT outline (a vertex that came
